@@ -207,6 +207,8 @@ class Pure:
         if isinstance(e, ast.JoinedStr):
             return V('""', "str")
         if isinstance(e, ast.Name):
+            if e.id == "self":
+                return V("self", "obj")
             if e.id in env:
                 return env[e.id]
             if e.id in sp.consts:
@@ -233,6 +235,12 @@ class Pure:
                     t, ty = sp.self_attrs[e.attr]
                     return V(t, ty)
                 bad(e, "read of undeclared attribute self.%s" % e.attr)
+            if isinstance(e.value, ast.Name) and e.value.id in env and env[e.value.id].ty == "obj":
+                tab = getattr(sp, "obj_attrs", {}).get(e.value.id, {})
+                if e.attr in tab:
+                    t, ty = tab[e.attr]
+                    return V(t, ty)
+                bad(e, "read of undeclared attribute %s.%s" % (e.value.id, e.attr))
             if isinstance(e.value, ast.Name) and e.value.id in env and env[e.value.id].ty.startswith("slice_"):
                 base = env[e.value.id]
                 if e.attr in ("start", "stop"):
@@ -278,6 +286,9 @@ class Pure:
             op = e.ops[0]
             a = self.expr(e.left, env, binds)
             b = self.expr(e.comparators[0], env, binds)
+            if isinstance(op, (ast.Is, ast.IsNot)) and a.ty == "obj" and b.ty == "obj":
+                # two object-typed values: translated for DISTINCT objects (the identical case is the reflexive instance of the model)
+                return FALSE if isinstance(op, ast.Is) else TRUE
             if isinstance(op, (ast.Is, ast.IsNot)):
                 if b.ty != "none":
                     bad(e, "is / is not with something else than None")
@@ -290,6 +301,9 @@ class Pure:
                 if isinstance(op, ast.IsNot):
                     r = not r
                 return TRUE if r else FALSE
+            if a.ty == "bytes" and b.ty == "bytes" and isinstance(op, (ast.Eq, ast.NotEq)):
+                t = "(list_eqb %s %s)" % (a.text, b.text)
+                return V(t if isinstance(op, ast.Eq) else "(negb %s)" % t, "bool")
             a, b = self.coerce_pair(e, a, b)
             tab_z = {ast.Lt: "(%s <? %s)", ast.LtE: "(%s <=? %s)", ast.Gt: "(%s >? %s)", ast.GtE: "(%s >=? %s)", ast.Eq: "(%s =? %s)", ast.NotEq: "(negb (%s =? %s))"}
             tab_f = {ast.Lt: "(flt %s %s)", ast.LtE: "(fle %s %s)", ast.Gt: "(flt %s %s)", ast.GtE: "(fle %s %s)", ast.Eq: "(feq %s %s)", ast.NotEq: "(negb (feq %s %s))"}
@@ -311,6 +325,10 @@ class Pure:
             if isinstance(e.op, ast.Div):
                 a, b = self.to_f(a), self.to_f(b)
                 return V("(fdiv %s %s)" % (a.text, b.text), "F")
+            if a.ty == "bytes" and b.ty == "bytes" and isinstance(e.op, ast.Add):
+                return V("(%s ++ %s)" % (a.text, b.text), "bytes")
+            if a.ty == "bytes" and b.ty == "Z" and isinstance(e.op, ast.Mult):
+                return V("(repeat_list %s (Z.to_nat %s))" % (a.text, b.text), "bytes")
             a, b = self.coerce_pair(e, a, b)
             if a.ty == "Z":
                 tab = {ast.Add: "(%s + %s)", ast.Sub: "(%s - %s)", ast.Mult: "(%s * %s)", ast.FloorDiv: "(%s / %s)", ast.Mod: "(%s mod %s)"}
@@ -593,7 +611,7 @@ class Pure:
         if v.ty == "sibling":
             bad(node, "sibling call result must be unpacked")
         nm = self.new(key.replace("self.", ""))
-        env[key] = V(nm, v.ty)
+        env[key] = V(nm, v.ty, v.const, v.has_const)      # a constant stays known through the local
         return "(let %s := %s in %s)" % (nm, v.text, cont(env))
 
     def bind_name(self, env, pyname, coqname, ty):
@@ -626,6 +644,8 @@ class Pure:
                 env0[p] = V(p, "round_fn")
             elif ty == "ignored":
                 env0[p] = V('""', "str")
+            elif ty == "obj":
+                env0[p] = V(p, "obj")
             else:
                 coq_params.append("(%s : %s)" % (p, {"Z": "Z", "F": "f64", "bool": "bool", "bytes": "list B"}[ty]))
                 env0[p] = V(p, ty)
